@@ -40,6 +40,7 @@ struct Exec {
     dead: bool,
     in_poll: bool,
     crashed_in_poll: bool,
+    hung: bool,
 }
 
 impl Exec {
@@ -117,6 +118,49 @@ impl Exec {
                     self.rig.crash();
                     self.dead = true;
                 }
+            }
+            "spawn_add" => {
+                if self.rig.tower.is_some() {
+                    self.rig.spawn_add(
+                        op["thread"].as_str().unwrap(),
+                        op["u"].as_i64().unwrap(),
+                        op["l"].as_i64().unwrap(),
+                        &op["blob"],
+                        op["tsd"].as_u64().unwrap_or(42) as u32,
+                    );
+                }
+            }
+            "spawn_poll" => {
+                if self.rig.tower.is_some() {
+                    self.rig.spawn_poll(op["thread"].as_str().unwrap());
+                }
+            }
+            "wait_flag" => {
+                if self.rig.tower.is_some() {
+                    self.rig.wait_flag(op["reachable"].as_bool().unwrap(), op["ms"].as_u64().unwrap_or(1500));
+                }
+            }
+            "join" => {
+                if self.rig.tower.is_some() {
+                    let ok = self.rig.join(op["thread"].as_str().unwrap(), op["ms"].as_u64().unwrap_or(1500));
+                    if !ok {
+                        self.hung = true;
+                    }
+                }
+            }
+            "end_async" => {
+                // after the joins: a tower with threads blocked for ever is abandoned and restarted (what an operator would do)
+                if self.hung {
+                    self.hung = false;
+                    self.rig.abandon();
+                    if !self.rig.boot() || !self.rig.poll() {
+                        self.rig.crash();
+                        self.dead = true;
+                    }
+                }
+            }
+            "rpc_up" => {
+                self.rig.node.lock().unwrap().rpc_up = op["up"].as_bool().unwrap();
             }
             "probe" => {
                 self.rig.probe();
@@ -289,7 +333,7 @@ fn main() {
         let node = new_node(h0);
         match exec.as_mut() {
             None => {
-                exec = Some(Exec { rig: Rig::new(&args[3], db.clone(), cfg, node), aborted: 0, dead: false, in_poll: false, crashed_in_poll: false });
+                exec = Some(Exec { rig: Rig::new(&args[3], db.clone(), cfg, node), aborted: 0, dead: false, in_poll: false, crashed_in_poll: false, hung: false });
             }
             Some(e) => {
                 e.rig.reset(db.clone(), cfg, node);
